@@ -10,7 +10,12 @@ Tie (this file): correspondence
       parser and taxonomy;
   (b) the helper functions of make_db.py / label_programs.py on synthetic inputs (random graphs with
       cycles and dangling targets, token-level bounded-exhaustive label names, random span lists).
-Exercised only: json.dumps + compaction regex + json.loads, sqlite3.
+  (c) the JSON TEXT layer (Model/JsonText.lean; proved: C11_json_roundtrip, C11_compact_only_span_lists, …): the real
+      get_json() text BYTE FOR BYTE against the model's compact (dumps2 data ++ "\n") on every generated directory and on
+      adversarial data of the database shape (look-alike span lists in sources, control characters, non-ASCII, astral
+      characters, lone surrogates, quotes, backslashes); json.dumps vs dumps2 on random values; the compaction scanner vs
+      regex.sub with the pattern READ FROM the source of get_json on arbitrary texts; the model's parser vs json.loads.
+Exercised only: sqlite3.
 """
 import contextlib
 import io
@@ -1221,7 +1226,10 @@ def run(ctx):
     ctx.cov["rule"] = (
         "directories: distinct generated directory (file set + texts) whose closure of internal imports is non-empty; "
         "closure-graphs/exportations: distinct graph with at least one edge; relabel-names: distinct (path set, label "
-        "name) that the real relabelling changes; prepared-spans/inverted-index: distinct non-empty input"
+        "name) that the real relabelling changes; prepared-spans/inverted-index: distinct non-empty input; "
+        "json-text.adversarial: distinct data with a compacted span list AND a look-alike span list inside a source; "
+        "json-dumps: distinct non-empty container; compact-texts: distinct text the real regex.sub changes; loads-texts: "
+        "distinct text json.loads accepts"
     )
     try:
         stream_helpers(ctx, drv)
@@ -1232,8 +1240,10 @@ def run(ctx):
         drv.close()
     ctx.cov["proved"] = [t for t, ax in ctx.cov.get("theorems", {}).items() if ax != "DOES-NOT-CHECK"]
     ctx.cov["exercised_only"] = [
-        "json.dumps + the span-compaction regex + json.loads round trip (json.loads(get_json()) is compared with the "
-        "in-memory data and with the model's value on every generated directory)",
+        "agreement of the JSON text model (dumps2 = json.dumps(indent=2, ensure_ascii), compact = the regex.sub of get_json, "
+        "loads = json.loads on the grammar of the database) with the Python: streams json-text.directories (inside "
+        "`directories`), json-text.adversarial, json-dumps, compact-texts, loads-texts — the round trip itself is PROVED "
+        "(C11_json_roundtrip)",
         "sqlite3 round trip (rows read back from the file written by write_sqlite are compared with the model's rows)",
         "stored source is verbatim the cleaned, hint-free source (the source is an input of the model; C12/C13 are about it)",
         "agreement of the R2 string matchers (import label regexes) with the regex engine: token-level bounded-exhaustive stream",
@@ -1244,10 +1254,16 @@ def run(ctx):
         "hand transcription of the two import-label regexes (searchImport?, internalTarget?) — validated by the "
         "bounded-exhaustive relabel stream",
         "the executable cross-check `c11.spec` (Kleene iteration / comprehensions) is a second opinion, not a theorem",
+        "hand transcription of json.encoder (py_encode_basestring_ascii, indent=2 layout), of the compaction regex as the "
+        "scanner `matchAt` (every quantifier is followed by an atom it cannot match, so greedy = the only match; `\\s` of "
+        "the regex module = Unicode White_Space, `\\d` restricted to ASCII digits) and of json.decoder's string scanner — "
+        "validated byte for byte by the json-text / json-dumps / compact-texts / loads-texts streams",
     ]
     ctx.assumptions += [
         "program paths of one collection are pairwise distinct (they are distinct files of one directory)",
         "ignore_timestamps=True (the timestamp is an opaque input string of the model)",
+        "C11_json_roundtrip: numbers are naturals (line numbers), no string holds a high surrogate code point directly "
+        "followed by a low one (json.loads(json.dumps(s)) itself merges them; sources are decoded from UTF-8: no surrogate)",
     ]
     if (not ctx.proofs_ok or ctx.broken) and not any(v.get("signature") is None for v in ctx.violations):
         ctx.violations.append({
